@@ -120,3 +120,14 @@ package jet
 //@   trusted io library
 //@   nopanic
 //@   ensures result != nil
+
+// ---- C11 / C10: what is immutable after publication (syntactic frame scans over the whole package) ----
+// Parsed templates and their nodes are written only by the parser (methods of *Template, the constructors and the
+// few node helpers they call); a Set is written only while it is constructed.
+//@ frame {C11,C10} stores-any Template only-in (*Set).parse, (*Template).addBlocks, (*Template).next, (*Template).backup, (*Template).backup2, (*Template).backup3, (*Template).peek, (*Template).errorf, (*Template).parseTemplate, (*Template).startParse, (*Template).stopParse, (*Template).parseBlock
+//@ frame {C11,C10} stores-any *Node only-in (*Template).*, (*ListNode).append, (*PipeNode).append, (*ChainNode).Add, (*NumberNode).simplifyComplex, (*CommandNode).append
+//@ frame {C11,C10} stores-any NodeBase only-in (*Template).*
+//@ frame {C11,C10} stores-any CallArgs only-in (*Template).*, (*CommandNode).append
+//@ frame {C11,C10} stores-any BlockParameterList only-in (*Template).*
+//@ frame {C11} stores-any Set only-in NewSet, WithCache, WithSafeWriter, WithDelims, WithCommentDelims, WithTemplateNameExtensions, DevelopmentMode, (*Set).AddGlobal
+//@ frame {C11} stores-global * only-in init, init#1, resolveIndex, embedfs.init, httpfs.init, multi.init, utils.init
